@@ -12,7 +12,8 @@ SPEC = {
                   ("BaseMap.use_latlon setter", 'setter', r'.')],
     'bounded': [
         ('build-histories-then-reopen-cycles', map_suites.case_C18, 500, 20000,
-         "graphs of 3-6 integer-labelled nodes at unit / 1e7 / degree scale, both metric flags, default or custom CRS settings, four build histories, "
+         "graphs of 3-6 integer-labelled nodes at unit / 1e7 / degree scale, both metric flags, default or custom CRS settings, seven build histories (bulk, single, "
+         "deferred, mixed, un-indexed bulk insert as last write, import-style, two bulk loads), settings changed and saved after creation (also there and back), "
          "1-3 reopen cycles; non-trivial = deferred commit/index step or use_latlon=False", "graphs <= 6 nodes, <= 3 cycles")],
     'extra_builders': {
         'roundtrip': lambda prog, tier: [M.vc_inmem_roundtrip(prog, u, d) for u in (True, False) for d in (True, False)],
